@@ -23,7 +23,10 @@ def mutations(lines, rng):
         m = copy.deepcopy(lines)
         del m[i]["rows"][0]
         out.append(("row removed from a result", m))
-    ap = [i for i in idx.get("Apply", [])]
+    # an Apply whose effect is observed later: a query result or a flush of the same table
+    # follows (dropping the very last apply of a trace leaves a valid, shorter behaviour)
+    ap = [i for i in idx.get("Apply", []) if lines[i].get("data") and
+          any(l["a"] in ("QueryResult", "FlushSwap") and l.get("t") == lines[i].get("t") for l in lines[i + 1:])]
     if ap:
         i = rng.choice(ap)
         m = copy.deepcopy(lines)
